@@ -187,6 +187,9 @@ pub struct Vt<I: 'static> {
     pub copy: Option<fn(I) -> Option<I>>,
     pub eq: Option<Mk2<I, bool>>,
     pub partial_cmp: Option<Mk2<I, Option<Ordering>>>,
+    /// the same object on both sides of `==` / `!=` / `partial_cmp`
+    pub eq_self: Option<fn(I) -> Option<(bool, bool)>>,
+    pub partial_cmp_self: Option<fn(I) -> Option<Option<Ordering>>>,
     pub cmp: Option<Mk2<I, Ordering>>,
     pub hash: Option<fn(I) -> Option<u64>>,
     /// sort a vector of newtypes built from the given raw values (rejected ones dropped)
@@ -246,6 +249,8 @@ impl<I: 'static> Vt<I> {
             copy: None,
             eq: None,
             partial_cmp: None,
+            eq_self: None,
+            partial_cmp_self: None,
             cmp: None,
             hash: None,
             sort: None,
@@ -553,6 +558,50 @@ impl InnerTy for Point {
     }
 }
 
+/// Inner type of lifetime-parameterised declarations `struct W<'a>(Cow<'a, [f32]>)`, instantiated at `'static`.
+/// Its `PartialEq` is not reflexive (NaN elements) and it has no `Eq`/`Ord`/`Hash`.
+pub type CowF = std::borrow::Cow<'static, [f32]>;
+
+impl InnerTy for CowF {
+    const NAME: &'static str = "Cow<[f32]>";
+    const KIND: Kind = Kind::Other;
+    fn same(&self, o: &Self) -> bool {
+        self.len() == o.len() && self.iter().zip(o.iter()).all(|(a, b)| a.to_bits() == b.to_bits())
+    }
+    fn key(&self) -> Vec<u8> {
+        self.iter().flat_map(|x| x.to_bits().to_le_bytes()).collect()
+    }
+    fn to_json(&self) -> Value {
+        json!({"bits": self.iter().map(|x| format!("{:#x}", x.to_bits())).collect::<Vec<_>>(), "approx": format!("{:?}", self.as_ref())})
+    }
+    fn from_json(v: &Value) -> Option<Self> {
+        let a = v.get("bits")?.as_array()?;
+        let mut out = Vec::with_capacity(a.len());
+        for x in a {
+            out.push(f32::from_bits(u32::from_str_radix(x.as_str()?.trim_start_matches("0x"), 16).ok()?));
+        }
+        Some(std::borrow::Cow::Owned(out))
+    }
+    fn weight(&self) -> u128 {
+        ((self.len() as u128) << 64) | self.iter().map(|x| x.to_bits() as u128).sum::<u128>()
+    }
+    fn hash_borrowed(&self) -> Option<u64> {
+        None
+    }
+    fn display_(&self) -> Option<String> {
+        None
+    }
+    fn parse_(_s: &str) -> Option<Result<Self, String>> {
+        None
+    }
+    fn inner_eq(&self, o: &Self) -> bool {
+        self == o
+    }
+    fn inner_partial_cmp(&self, o: &Self) -> Option<Option<Ordering>> {
+        Some(self.partial_cmp(o))
+    }
+}
+
 /// Registry entry: one generated declaration with its inner type made explicit.
 pub enum Entry {
     U8(&'static Vt<u8>),
@@ -572,6 +621,7 @@ pub enum Entry {
     Str(&'static Vt<String>),
     VecI32(&'static Vt<Vec<i32>>),
     Point(&'static Vt<Point>),
+    CowF32(&'static Vt<CowF>),
 }
 
 /// Dispatch a generic function over the inner type of an entry.
@@ -596,6 +646,7 @@ macro_rules! with_entry {
             $crate::types::Entry::Str($vt) => $body,
             $crate::types::Entry::VecI32($vt) => $body,
             $crate::types::Entry::Point($vt) => $body,
+            $crate::types::Entry::CowF32($vt) => $body,
         }
     };
 }
